@@ -10,6 +10,7 @@ needed: members owning the same token are walked first owner first, consistently
 -/
 import ScyllaVerif.Model.Replicas
 import ScyllaVerif.Model.Refresh
+import ScyllaVerif.Model.C04Fetch
 import ScyllaVerif.Proofs.Ring
 import ScyllaVerif.Proofs.Replicas
 
@@ -677,16 +678,37 @@ theorem newTopology_entries (known : List KNode) (peers : List MPeer) :
   unfold newTopology Topology.entries toTopology
   simp only [pickNode_node, List.flatMap_map]
 
-/-- The metadata in force after a history (`topo` keeps the keyspaces, `enable` changes nothing). -/
-def metaAfter (m : List MPeer × List Strategy) : List Step → List MPeer × List Strategy
+/-- The metadata in force after a history: the last peer list, and the keyspaces as RESOLVED — a keyspace whose fetch
+failed in a full refresh keeps the definition the previous state had (`topo` keeps all keyspaces, `enable`
+changes nothing). -/
+def metaAfter (m : List MPeer × Keyspaces) : List Step → List MPeer × Keyspaces
   | [] => m
-  | .full peers S :: rest => metaAfter (peers, S) rest
+  | .full peers fetched :: rest => metaAfter (peers, resolveKeyspaces fetched m.2) rest
   | .topo peers :: rest => metaAfter (peers, m.2) rest
   | .enable _ :: rest => metaAfter m rest
 
-private theorem run_invariant (st : CState) (m : List MPeer × List Strategy)
-    (h : st.loc = Topology.locator (toTopology m.1) m.2 ∧ st.keyspaces = m.2) (steps : List Step) :
-    (st.run steps).loc = Topology.locator (toTopology (metaAfter m steps).1) (metaAfter m steps).2 ∧
+/-- A fetch without errors, as `Metadata::keyspaces`. -/
+def fetchedOk (ks : Keyspaces) : Fetched := ks.map (fun e => (e.1, some e.2))
+
+/-- Without fetch errors the resolved keyspaces are the fetched ones, whatever the previous state held. -/
+theorem resolve_fetchedOk (ks old : Keyspaces) : resolveKeyspaces (fetchedOk ks) old = ks := by
+  unfold resolveKeyspaces fetchedOk
+  induction ks with
+  | nil => rfl
+  | cons e tl ih => simp only [List.map_cons, List.filterMap_cons]; rw [ih]
+
+/-- A keyspace whose fetch failed is answered with the previous state's definition (or is absent if the previous
+state had none): the one place where a refreshed state depends on more than the last metadata. -/
+theorem resolve_failed (name : Nat) (old : Keyspaces) :
+    resolveKeyspaces [(name, none)] old = match old.lookup name with
+      | some s => [(name, s)]
+      | none => [] := by
+  unfold resolveKeyspaces
+  cases h : old.lookup name <;> simp [h]
+
+private theorem run_invariant (st : CState) (m : List MPeer × Keyspaces)
+    (h : st.loc = Topology.locator (toTopology m.1) (strategiesOf m.2) ∧ st.keyspaces = m.2) (steps : List Step) :
+    (st.run steps).loc = Topology.locator (toTopology (metaAfter m steps).1) (strategiesOf (metaAfter m steps).2) ∧
       (st.run steps).keyspaces = (metaAfter m steps).2 := by
   induction steps generalizing st m with
   | nil => exact h
@@ -694,9 +716,9 @@ private theorem run_invariant (st : CState) (m : List MPeer × List Strategy)
     unfold CState.run at ih ⊢
     rw [List.foldl_cons]
     cases s with
-    | full peers S =>
+    | full peers fetched =>
       apply ih
-      simp only [CState.step, CState.refresh, newTopology_entries]
+      simp only [CState.step, CState.refresh, newTopology_entries, h.2]
       exact ⟨rfl, trivial⟩
     | topo peers =>
       apply ih
@@ -707,25 +729,40 @@ private theorem run_invariant (st : CState) (m : List MPeer × List Strategy)
       exact h
 
 /-- **`refresh_locator_eq_fresh`.** After any history of metadata refreshes (full or topology-only, with nodes
-changing rack, datacenter, tokens, address, leaving, joining, being enabled or disabled in between, and the
-keyspace strategies changing), the replica locator is the one of a cluster built from scratch from the last
-metadata: every replica set, in every view, depends on the last metadata only. -/
-theorem refresh_locator_eq_fresh (peers₀ : List MPeer) (S₀ : List Strategy) (steps : List Step) :
-    ((CState.fresh peers₀ S₀).run steps).loc =
-      (CState.fresh (metaAfter (peers₀, S₀) steps).1 (metaAfter (peers₀, S₀) steps).2).loc := by
-  have h0 : (CState.fresh peers₀ S₀).loc = Topology.locator (toTopology peers₀) S₀ ∧
-      (CState.fresh peers₀ S₀).keyspaces = S₀ := by
-    simp only [CState.fresh, newTopology_entries]; exact ⟨rfl, trivial⟩
-  have := (run_invariant (CState.fresh peers₀ S₀) (peers₀, S₀) h0 steps).1
+changing rack, datacenter, tokens, address, leaving, joining, being enabled or disabled in between, the host
+filter accepting or rejecting them, and the keyspace strategies changing), the replica locator is the one of a
+cluster built from scratch from the last peer list and the RESOLVED keyspaces (`metaAfter`): node objects
+reused across refreshes never leak a stale datacenter, rack or token into placement.  The keyspaces are the
+last fetched ones unless a keyspace fetch failed (`resolve_fetchedOk`, `resolve_failed`,
+`refresh_depends_on_last_metadata_only`). -/
+theorem refresh_locator_eq_fresh (peers₀ : List MPeer) (ks₀ : Keyspaces) (steps : List Step) :
+    ((CState.fresh peers₀ (fetchedOk ks₀)).run steps).loc =
+      (CState.fresh (metaAfter (peers₀, ks₀) steps).1 (fetchedOk (metaAfter (peers₀, ks₀) steps).2)).loc := by
+  have h0 : (CState.fresh peers₀ (fetchedOk ks₀)).loc = Topology.locator (toTopology peers₀) (strategiesOf ks₀) ∧
+      (CState.fresh peers₀ (fetchedOk ks₀)).keyspaces = ks₀ := by
+    simp only [CState.fresh, newTopology_entries, resolve_fetchedOk]; exact ⟨rfl, trivial⟩
+  have := (run_invariant (CState.fresh peers₀ (fetchedOk ks₀)) (peers₀, ks₀) h0 steps).1
   rw [this]
-  simp only [CState.fresh, newTopology_entries]
+  simp only [CState.fresh, newTopology_entries, resolve_fetchedOk]
   rfl
+
+/-- If the last full refresh of a history had no keyspace fetch error (and only topology-only refreshes and
+enabled-ness changes follow it), the locator depends on the last metadata ONLY: last peer list, last fetched
+keyspaces — nothing of the states before. -/
+theorem refresh_depends_on_last_metadata_only (st : CState) (peers : List MPeer) (ks : Keyspaces) :
+    (st.refresh peers (fetchedOk ks)).loc = (CState.fresh peers (fetchedOk ks)).loc ∧
+      (st.refresh peers (fetchedOk ks)).keyspaces = ks := by
+  simp only [CState.refresh, CState.fresh, newTopology_entries, resolve_fetchedOk]; exact ⟨trivial, trivial⟩
 
 /-- The locator of a freshly built state is `locOf` of the sorted ring of the metadata: all theorems above apply
 to it. -/
-theorem fresh_locator (peers : List MPeer) (S : List Strategy) :
-    (CState.fresh peers S).loc = locOf (mkRing (toTopology peers).entries) S := by
-  simp only [CState.fresh, newTopology_entries]; rfl
+theorem fresh_locator (peers : List MPeer) (ks : Keyspaces) :
+    (CState.fresh peers (fetchedOk ks)).loc = locOf (mkRing (toTopology peers).entries) (strategiesOf ks) := by
+  simp only [CState.fresh, newTopology_entries, resolve_fetchedOk]; rfl
+
+-- a failed fetch of keyspace 1 keeps the old NTS definition; keyspace 2 (unknown before) is dropped
+example : resolveKeyspaces [(0, some (.simple 2)), (1, none), (2, none)] [(0, .simple 1), (1, .nts [(0, 3)])] =
+    [(0, .simple 2), (1, .nts [(0, 3)])] := by decide
 
 -- non-vacuity: node 2 moves from rack 1 to rack 0 and node 3 changes address; all reuse arms are taken and the
 -- chosen objects carry the new placement; a guard that ignored the rack would keep `some 1` for node 2
@@ -739,6 +776,232 @@ example :
     (pickNode known ⟨⟨4, some 0, some 0⟩, 4, [40], true⟩).node.rack = some 0 := by decide       -- rack changed: new
 
 end refresh
+
+/-! ### metadata rows → peers → ring, replication options → strategy
+
+The servers place data only on token owners, by the strategy the keyspace row states.  The driver learns both
+from rows (`system.local`, `system.peers`, `system_schema.keyspaces`); this section ties that glue
+(`Model/C04Fetch.lean`) to the placement theorems above. -/
+section fetch
+open ScyllaVerif.C04Fetch
+
+/-- A row without host id is skipped. -/
+theorem row_null_host_skipped (row : Row) (d : Int) (h : row.hostId = none) : peerFromRow row d = none := by
+  unfold peerFromRow; rw [h]
+
+/-- A null `tokens` column, like an empty list, means the peer owns NO token (never a dummy token). -/
+theorem row_null_tokens (row : Row) (d : Int) (id : Nat) (h : row.hostId = some id)
+    (ht : row.tokens = none ∨ row.tokens = some []) :
+    peerFromRow row d = some ⟨id, row.dc, row.rack, []⟩ := by
+  unfold peerFromRow; rw [h]
+  rcases ht with ht | ht <;> rw [ht] <;> rfl
+
+/-- If every token string is a decimal `i64`, the peer owns exactly the parsed tokens, in order (the random
+value plays no role). -/
+theorem row_parsed_tokens (row : Row) (d : Int) (id : Nat) (l : List Int) (h : row.hostId = some id)
+    (hp : parseTokens (row.tokens.getD []) = some l) :
+    peerFromRow row d = some ⟨id, row.dc, row.rack, l⟩ := by
+  unfold peerFromRow; rw [h]; simp only [hp]
+
+/-- If any token string is unparseable the peer owns exactly one token, the (normalised) random one. -/
+theorem row_dummy_token (row : Row) (d : Int) (id : Nat) (h : row.hostId = some id)
+    (hp : parseTokens (row.tokens.getD []) = none) :
+    peerFromRow row d = some ⟨id, row.dc, row.rack, [tokenNew d]⟩ := by
+  unfold peerFromRow; rw [h]; simp only [hp]
+
+/-- The ring built from fetched peers holds, for every peer, exactly its tokens (normalised as `Token::new`
+does): the ring of the rows is the ring of the parsed tokens. -/
+theorem ring_of_peers (peers : List FPeer) :
+    ((peersToTopology peers).ring).Perm
+      (peers.flatMap (fun p => p.tokens.map (fun t => (tokenNew t, (⟨p.id, p.dc, p.rack⟩ : Node))))) := by
+  unfold Topology.ring
+  refine (mkRing_perm _).trans ?_
+  unfold Topology.entries peersToTopology
+  rw [List.flatMap_map]
+
+private theorem eq_of_nodup_map {α β : Type} (f : α → β) (l : List α) (h : (l.map f).Nodup) (a b : α)
+    (ha : a ∈ l) (hb : b ∈ l) (hab : f a = f b) : a = b := by
+  induction l with
+  | nil => cases ha
+  | cons x l ih =>
+    rw [List.map_cons, List.nodup_cons] at h
+    rcases List.mem_cons.mp ha with rfl | ha' <;> rcases List.mem_cons.mp hb with rfl | hb'
+    · rfl
+    · exact absurd (List.mem_map.mpr ⟨b, hb', hab.symm⟩) h.1
+    · exact absurd (List.mem_map.mpr ⟨a, ha', hab⟩) h.1
+    · exact ih h.2 ha' hb'
+
+/-- A peer without tokens is not a member of the ring (host ids of a fetch are distinct). -/
+theorem tokenless_peer_not_in_ring (peers : List FPeer) (hid : (peers.map (·.id)).Nodup) (p : FPeer)
+    (hp : p ∈ peers) (ht : p.tokens = []) :
+    (⟨p.id, p.dc, p.rack⟩ : Node) ∉ ((peersToTopology peers).ring).map (·.2) := by
+  intro hm
+  obtain ⟨e, he, hen⟩ := List.mem_map.mp hm
+  have he' := (ring_of_peers peers).mem_iff.mp he
+  obtain ⟨q, hq, heq⟩ := List.mem_flatMap.mp he'
+  obtain ⟨t, htq, hte⟩ := List.mem_map.mp heq
+  have : q.id = p.id := by
+    rw [← hte] at hen
+    simp only [Node.mk.injEq] at hen
+    exact hen.1
+  have hqp : q = p := eq_of_nodup_map (·.id) peers hid q p hq hp this
+  rw [hqp, ht] at htq
+  cases htq
+
+/-- A node that is not a member of the ring is a replica of no token: under no strategy, no datacenter
+restriction, whatever was precomputed, in no view (the other views are permutations / selections of `iter`:
+`views_agree`). -/
+theorem not_in_ring_never_replica {r : Ring Node} (hs : Sorted r) (S : List Strategy) (n : Node)
+    (hn : n ∉ r.map (·.2)) (tok : Int) (strat : Strategy) (dc : Option Nat) :
+    n ∉ (replicasForToken (locOf r S) tok strat dc).iter (locOf r S) := by
+  have hS := fun t rf => getSimple_precompute hs S t rf
+  have hN := fun t d rf => getNts_precompute hs S t d rf
+  have hsimple : ∀ rf, n ∉ simpleReplicas r tok rf := by
+    intro rf hm
+    unfold simpleReplicas at hm
+    exact hn (mem_ringRange.mp (mem_uniq.mp (List.mem_of_mem_take hm)))
+  have hnts : ∀ d rf, n ∉ ntsReplicas r tok d rf := fun d rf hm => hn (mem_ntsReplicas hm).2
+  cases strat with
+  | simple rf =>
+    cases dc with
+    | none => simp only [replicasForToken, ReplicaSet.iter, hS]; exact hsimple rf
+    | some d =>
+      simp only [replicasForToken, ReplicaSet.iter, hS]
+      exact fun hm => hsimple rf (List.mem_filter.mp hm).1
+  | localStrategy =>
+    cases dc with
+    | none => simp only [replicasForToken, ReplicaSet.iter, hS]; exact hsimple 1
+    | some d =>
+      simp only [replicasForToken, ReplicaSet.iter, hS]
+      exact fun hm => hsimple 1 (List.mem_filter.mp hm).1
+  | other =>
+    cases dc with
+    | none => simp only [replicasForToken, ReplicaSet.iter, hS]; exact hsimple 1
+    | some d =>
+      simp only [replicasForToken, ReplicaSet.iter, hS]
+      exact fun hm => hsimple 1 (List.mem_filter.mp hm).1
+  | nts repf =>
+    cases dc with
+    | some d =>
+      simp only [replicasForToken]
+      cases repf.lookup d with
+      | none => simp [ReplicaSet.iter]
+      | some rf => simp only [ReplicaSet.iter, hN]; exact hnts d rf
+    | none =>
+      simp only [replicasForToken, ReplicaSet.iter, hN]
+      intro hm
+      obtain ⟨d, _, hd⟩ := List.mem_flatMap.mp hm
+      exact hnts d _ hd
+
+/-- **A peer whose row has no tokens (null column or empty list) is never reported as a replica**, of any token,
+under any strategy — in the cluster state built from the fetched rows. -/
+theorem tokenless_row_never_replica (rows : List Row) (dummies : List Int)
+    (hid : ((peersFromRows rows dummies).map (·.id)).Nodup)
+    (row : Row) (d : Int) (id : Nat) (hrow : (row, d) ∈ rows.zip dummies) (h : row.hostId = some id)
+    (ht : row.tokens = none ∨ row.tokens = some [])
+    (S : List Strategy) (tok : Int) (strat : Strategy) (dc : Option Nat) :
+    let r := (peersToTopology (peersFromRows rows dummies)).ring
+    (⟨id, row.dc, row.rack⟩ : Node) ∉ (replicasForToken (locOf r S) tok strat dc).iter (locOf r S) := by
+  intro r
+  have hp : (⟨id, row.dc, row.rack, []⟩ : FPeer) ∈ peersFromRows rows dummies := by
+    unfold peersFromRows
+    exact List.mem_filterMap.mpr ⟨(row, d), hrow, row_null_tokens row d id h ht⟩
+  have := tokenless_peer_not_in_ring _ hid _ hp rfl
+  exact not_in_ring_never_replica (mkRing_sorted _) S _ this tok strat dc
+
+/-- `validate_peers` accepts exactly the non-empty peer lists in which somebody owns a token. -/
+theorem validatePeers_ok_iff (peers : List FPeer) :
+    validatePeers peers = .ok () ↔ ∃ p ∈ peers, p.tokens ≠ [] := by
+  unfold validatePeers
+  constructor
+  · intro h
+    split at h
+    · cases h
+    · split at h
+      · cases h
+      · rename_i hall
+        simp only [List.all_eq_true, List.isEmpty_iff] at hall
+        exact Classical.byContradiction fun hcon =>
+          hall (fun x hx => Classical.byContradiction fun hne => hcon ⟨x, hx, hne⟩)
+  · rintro ⟨p, hp, hne⟩
+    have h1 : peers.isEmpty = false := by cases peers <;> simp_all
+    have h2 : ¬ (peers.all (fun p => p.tokens.isEmpty) = true) := by
+      simp only [List.all_eq_true, List.isEmpty_iff]
+      exact fun hall => hne (hall p hp)
+    simp [h1, h2]
+
+/-- The NTS loop succeeds exactly when every remaining option value is a `usize`, and then the replication
+factors ARE the option map: same datacenter names, same order, parsed values. -/
+theorem ntsOptions_ok_iff (m : List (String × String)) (l : List (String × Nat)) :
+    ntsOptions m = .ok l ↔ m.mapM (fun e => (parseUsize e.2).map (fun rf => (e.1, rf))) = some l := by
+  induction m generalizing l with
+  | nil => simp [ntsOptions]
+  | cons e rest ih =>
+    obtain ⟨k, v⟩ := e
+    unfold ntsOptions
+    rw [List.mapM_cons]
+    cases hv : parseUsize v with
+    | none => simp
+    | some rf =>
+      simp only [Option.map_some, Option.bind_eq_bind, Option.bind_some]
+      cases hr : ntsOptions rest with
+      | error e =>
+        have : rest.mapM (fun e => (parseUsize e.2).map (fun rf => (e.1, rf))) = none := by
+          cases hm : rest.mapM (fun e => (parseUsize e.2).map (fun rf => (e.1, rf))) with
+          | none => rfl
+          | some l' => have := (ih l').mpr hm; rw [hr] at this; cases this
+        simp [this]
+      | ok l' =>
+        have := (ih l').mp hr
+        simp only [this, Option.bind_some, Option.pure_def, Option.some.injEq, Except.ok.injEq]
+
+/-- `strategy_from_string_map` by cases on the `class` option: both the fully qualified and the short class names
+select the strategy; SimpleStrategy needs a parseable `replication_factor`; NetworkTopologyStrategy turns EVERY
+other option into a datacenter replication factor; anything else is `Other`; no `class` is an error. -/
+theorem strategyFromOptions_cases (m : List (String × String)) :
+    (m.lookup "class" = none → strategyFromOptions m = .error .missingClass) ∧
+    (∀ cls, m.lookup "class" = some cls →
+      (cls = "org.apache.cassandra.locator.SimpleStrategy" ∨ cls = "SimpleStrategy") →
+      strategyFromOptions m = match (removeKey "class" m).lookup "replication_factor" with
+        | none => .error .missingReplicationFactor
+        | some v => match parseUsize v with
+          | none => .error .replicationFactorParse
+          | some rf => .ok (.simple rf)) ∧
+    (∀ cls, m.lookup "class" = some cls →
+      (cls = "org.apache.cassandra.locator.NetworkTopologyStrategy" ∨ cls = "NetworkTopologyStrategy") →
+      strategyFromOptions m = (match ntsOptions (removeKey "class" m) with
+        | .ok l => .ok (.nts l)
+        | .error e => .error e)) ∧
+    (∀ cls, m.lookup "class" = some cls →
+      (cls = "org.apache.cassandra.locator.LocalStrategy" ∨ cls = "LocalStrategy") →
+      strategyFromOptions m = .ok .localStrategy) := by
+  refine ⟨?_, ?_, ?_, ?_⟩
+  · intro h; unfold strategyFromOptions; rw [h]
+  · intro cls h hc
+    unfold strategyFromOptions; rw [h]
+    rcases hc with rfl | rfl <;> simp <;> rfl
+  · intro cls h hc
+    unfold strategyFromOptions; rw [h]
+    rcases hc with rfl | rfl <;> simp <;> rfl
+  · intro cls h hc
+    unfold strategyFromOptions; rw [h]
+    rcases hc with rfl | rfl <;> simp
+
+-- non-vacuity: the accept set of the token / replication-factor parsers, the row shapes, the option maps
+example : parseI64 "+5" = some 5 ∧ parseI64 " 5" = none ∧ parseI64 "-9223372036854775808" = some (-9223372036854775808) ∧
+    parseI64 "9223372036854775808" = none ∧ parseI64 "0007" = some 7 ∧ parseI64 "" = none ∧ parseI64 "-" = none ∧
+    parseI64 "1_0" = none ∧ parseUsize "-0" = none ∧ parseUsize "+3" = some 3 := by decide
+example : peerFromRow ⟨some 7, some 0, none, none⟩ 42 = some ⟨7, some 0, none, []⟩ ∧
+    peerFromRow ⟨some 7, some 0, none, some ["5", "-9223372036854775808"]⟩ 42 = some ⟨7, some 0, none, [5, -9223372036854775808]⟩ ∧
+    peerFromRow ⟨some 7, some 0, none, some ["5", "x"]⟩ (-9223372036854775808) = some ⟨7, some 0, none, [9223372036854775807]⟩ ∧
+    peerFromRow ⟨none, some 0, none, some ["5"]⟩ 42 = none := by decide
+example : (strategyFromOptions [("class", "NetworkTopologyStrategy"), ("dc1", "3"), ("dc2", "0")]).toOption = some (.nts [("dc1", 3), ("dc2", 0)]) ∧
+    (strategyFromOptions [("class", "org.apache.cassandra.locator.SimpleStrategy"), ("replication_factor", "2")]).toOption = some (.simple 2) ∧
+    (strategyFromOptions [("replication_factor", "2")]).toOption = none ∧
+    (strategyFromOptions [("class", "NetworkTopologyStrategy"), ("dc1", "x")]).toOption = none ∧
+    (strategyFromOptions [("class", "EverywhereStrategy"), ("a", "b")]).toOption = some (.other "EverywhereStrategy" [("a", "b")]) := by decide
+
+end fetch
 
 /-! ### non-vacuity of the precomputed path (in-kernel instances)
 
